@@ -29,7 +29,7 @@ class Prop(object):
             'sign-only primary, passphrase) x body class; full product body (11) x compression (4) x format (3) x file name (3); passphrase x 7 S2K hashes x '
             'passphrase kinds; every ordered pair and every ordering of (key, key, passphrase) recipient triples; session key generated / supplied; 0-2 '
             'signers; binary / armored transport; and the same matrix encrypted by the reference (plus old-format, partial-length, SKESK without session '
-            'key, simple/salted/iterated S2K, several SKESK, marker first, legacy tag 9) decrypted by PGPy. One state = one (direction, configuration).')
+            'key, simple/salted/iterated S2K, several SKESK, marker first, legacy tag 9; session-key wrap cipher x data cipher, 9 x 9) decrypted by PGPy. One state = one (direction, configuration).')
     ASSUMPTIONS = ['refpgp.enc / refpgp.msg implement RFC 4880 5.1, 5.3, 5.7, 5.13, 13.9 and RFC 6637 (validated at setup against GnuPG-made fixture '
                    'messages and RFC 3394 test vectors)', 'ECDH scalar multiplication of OpenSSL is trusted',
                    'S2K coded count lowered to 96 (65536 octets) for PGPy-made packets through HashAlgorithm.tuned_count; other counts are covered by C12']
@@ -664,11 +664,21 @@ class Prop(object):
             variants += [{'s2k': (0, 8, 0)}, {'s2k': (1, 2, 0)}, {'s2k': (3, 10, 255)}, {'s2k': (3, 1, 17)}, {'no_esk': True}, {'no_esk': True, 's2k': (1, 8, 0)},
                          {'kek_cipher': 9}, {'kek_cipher': 2}]
         for i, v in enumerate(variants):
-            if case.get('only') is not None and i != case['only']:
+            if (case.get('only') is not None and i != case['only']) or case.get('grid'):
                 continue
             for comp in (0, 2):
                 self._foreign(r, lit, comp, [rc], 'AES128' if not v.get('no_esk') else 'AES256', {'part': 'framing', 'recip': rc if rc == 'pass' else 'key'}, dict(case, only=i),
                               'reference-encrypted with framing %r, compression %d' % (v, comp), variant=v)
+        if rc == 'pass':
+            # the cipher that wraps the session key inside the passphrase packet and the cipher of the data are two fields: full grid of both
+            # (gpg -c with --s2k-cipher-algo different from the data cipher writes such packets)
+            small = dict(lit, data=lit['data'][:257])
+            for dc in sorted(R.CIPHER_ID, key=R.CIPHER_ID.get):
+                for kc in sorted(R.CIPHER_ID, key=R.CIPHER_ID.get):
+                    if (case.get('only') is not None and not case.get('grid')) or (case.get('grid') and case['grid'] != [dc, kc]):
+                        continue
+                    self._foreign(r, small, 0, [rc], dc, {'part': 'framing', 'recip': 'pass', 'grid': 'wrap-x-data'}, dict(case, grid=[dc, kc]),
+                                  'reference-encrypted under %s, session key wrapped under %s' % (dc, kc), variant={'kek_cipher': R.CIPHER_ID[kc]})
         if rc == 'pass':
             # several passphrase packets: the right one second
             self._foreign(r, lit, 0, ['pass2', 'pass'], 'AES128', {'part': 'framing', 'recip': 'pass+pass'}, dict(case), 'two passphrase packets')
